@@ -313,3 +313,215 @@ Proof.
   - intros p Hp. vm_compute in Hp. destruct Hp as [<-|[]]. now left.
   - vm_compute. discriminate.
 Qed.
+
+(** * The whole-image model (RolandImage.v: [roland_export_gen], what `export` does on the
+    bytes of one S-7xx image; compared with the real CLI export on every generated image) *)
+From SE Require Import Transcode Names RolandImage RolandFatProofs RolandImageProofs.
+From SE Require AkaiImage.
+
+(** The model does NOT decode the 65536-entry table.  For the table of the real format
+    (65536 words, none negative) its acceptance test on the raw words accepts exactly what
+    the decoder model of FatAreaAdapter._decode accepts, with the same version ... *)
+Theorem roland_raw_fat_check_exact : forall fat ver, fat_table fat ->
+  (raw_fat_check fat = Ok ver <-> exists links, roland_decode fat = Ok (ver, links)).
+Proof. exact raw_fat_check_exact_lemma. Qed.
+Print Assumptions roland_raw_fat_check_exact.
+(** ... rejects with ConstructError only, and never runs out of fuel (fuel: 65536 clusters per
+    walk, the decoder's own loop bound). *)
+Theorem roland_raw_fat_check_errors : forall fat, raw_fat_check fat <> OutOfFuel /\
+  forall e, raw_fat_check fat = Err e -> e = ConstructErr.
+Proof. exact raw_fat_check_errors_lemma. Qed.
+Print Assumptions roland_raw_fat_check_errors.
+(** The raw-chain shortcut.  In every table the decoder accepts, following the raw words from a
+    start cluster gives what resolving that cluster through the decoded link table gives: for
+    EVERY start (linked, free, reserved, the two head entries, the tail entries the decoder
+    does not scan, beyond the table: same path or same exception) ... *)
+Theorem roland_raw_chain_shortcut : forall fat ver links entry, fat_table fat ->
+  roland_decode fat = Ok (ver, links) -> 0 <= entry ->
+  raw_get_path fat entry = get_path (zlen fat) links entry.
+Proof. exact raw_get_path_decoded_lemma. Qed.
+Print Assumptions roland_raw_chain_shortcut.
+(** ... and every cluster_top: get_file. *)
+Theorem roland_raw_get_file : forall fat ver links entry top, fat_table fat ->
+  roland_decode fat = Ok (ver, links) -> 0 <= entry ->
+  raw_get_file fat entry top = roland_get_file (zlen fat) links entry top.
+Proof. exact raw_get_file_decoded_lemma. Qed.
+Print Assumptions roland_raw_get_file.
+
+(** The closed-form content of the exported data stream used by the whole-image model is the
+    window of the layer theorems above ([roland_readall]: what readall() of the real view
+    returns): any reader [rd] of the image, any chain order, any loop mode, any window inside
+    the chained file whose clusters lie inside the image. *)
+Theorem roland_stream_content_window : forall img rd, reads img rd -> forall secs mode p,
+  secs <> [] -> Forall (inside img) secs ->
+  0 <= p_start p -> p_start p <= roland_end mode p ->
+  2 * (roland_end mode p + 1) <= CLUSTER_SIZE * zlen secs ->
+  stream_content (zlen img) rd secs (get_params mode p)
+  = Ok (window_bytes mode p (logical (roland_file_view CLUSTER_SIZE DATA_FAT_OFFSET (zlen img) secs) img)).
+Proof. exact stream_content_window_lemma. Qed.
+Print Assumptions roland_stream_content_window.
+
+(** One sample entry, from bytes to exported PCM.  In ANY image (whatever else it holds) in
+    which sample number [s] is as a serialiser of one sample entry writes it - directory entry
+    [ser_dirent] (32 bytes) at the sample's directory position, parameter record
+    [ser_sample_param] (48 bytes) at its parameter position, the entry's first cluster heading a
+    raw chain [c] of a table the model accepts, the chain's clusters inside the image, the
+    window of the loop mode inside the chain minus its [cluster_top] leading clusters - the
+    whole-image model parses the sample into the file named by the directory entry, with the
+    rate of the frequency code, whose data stream holds exactly that window (16-bit words in
+    reverse time order for modes 5, 6); and this is also what the layer model over the DECODED
+    table ([roland_sample_pcm], tied to the real streams function by function) returns.
+    Composes [roland_raw_fat_check_exact], [roland_raw_get_file], [roland_chain_resolved],
+    [roland_stream_content_window], [roland_sample_pcm_exact]. *)
+Theorem roland_export_sample_pcm : forall img rd fat ver s dn ty x f c rate,
+  reads img rd ->
+  0 <= s < 8192 ->
+  slice img (dir_offset KSample s) (dir_offset KSample s + 32) = ser_dirent dn ty x (hd 0 c) ->
+  slice img (par_offset KSample s) (par_offset KSample s + 48) = ser_sample_param f ->
+  name_ok dn -> name_ok (sf_name f) ->
+  frequency_of_code (sf_options f mod 16) = Ok rate ->
+  fat_table fat -> raw_fat_check fat = Ok ver -> raw_roland_chain fat c ->
+  0 <= sf_top f < zlen c ->
+  Forall (fun k => (k + 1) * CLUSTER_SIZE <= zlen img - DATA_FAT_OFFSET) c ->
+  let p := sample_points f in
+  let mode := loop_mode_of_byte (sf_mode f) in
+  0 <= p_start p -> p_start p <= roland_end mode p ->
+  2 * (roland_end mode p + 1) <= CLUSTER_SIZE * (zlen c - sf_top f) ->
+  let file := roland_file_view CLUSTER_SIZE DATA_FAT_OFFSET (zlen img) (skipn (Z.to_nat (sf_top f)) c) in
+  parse_sample (zlen img) rd fat s
+  = Ok (Some {| rs_index := s; rs_name := dn; rs_rate := rate;
+                rs_data := Ok (window_bytes mode p (logical file img)) |})
+  /\ roland_sample_pcm CLUSTER_SIZE DATA_FAT_OFFSET fat img (hd 0 c) (sf_top f) mode p
+     = Ok (window_bytes mode p (logical file img)).
+Proof. exact parse_sample_serialised_lemma. Qed.
+Print Assumptions roland_export_sample_pcm.
+(** ... and a sample file that is not paired with another one is written as ONE mono file whose
+    PCM is exactly its data stream (a whole number of 16-bit words: [roland_window_length]),
+    at the path prefix + its export name. *)
+Theorem roland_export_single_file : forall prefix smps nm i s b,
+  nth_error smps i = Some s -> rs_data s = Ok b -> zlen b mod 2 = 0 ->
+  export_outputs prefix smps [(nm, [i])]
+  = Ok [{| AkaiImage.w_path := prefix ++ [nm]; AkaiImage.w_rate := rs_rate s;
+           AkaiImage.w_channels := 1; AkaiImage.w_pcm := b |}].
+Proof. exact export_single_lemma. Qed.
+Print Assumptions roland_export_single_file.
+Theorem roland_window_length : forall mode p file content,
+  0 <= p_start p -> p_start p <= roland_end mode p + 1 ->
+  2 * (roland_end mode p + 1) <= zlen (logical file content) ->
+  zlen (window_bytes mode p (logical file content)) = 2 * (roland_end mode p - p_start p + 1).
+Proof. exact window_bytes_len. Qed.
+Print Assumptions roland_window_length.
+
+(** Termination.  For ANY image length and ANY reader (any bytes, damaged in any way) the
+    whole-image export and listing return Ok or Err, never OutOfFuel.  Fuel of the loops:
+    65536 clusters per FAT walk (the decoder's own bound, a longer path is a rejected loop);
+    taken + 2 * siblings + 1 probes per name (Names.v); bytes + 2 blocks per transcoded stream;
+    everything else is structural recursion on the 64 / 32 / 88 / 4 pointers of a record and
+    the 128 / 512 directory positions. *)
+Theorem roland_export_total : forall ilen rd, roland_export_gen ilen rd <> OutOfFuel.
+Proof. exact roland_export_gen_total. Qed.
+Print Assumptions roland_export_total.
+Theorem roland_ls_total : forall ilen rd, roland_ls_gen ilen rd <> OutOfFuel.
+Proof. exact roland_ls_gen_total. Qed.
+Print Assumptions roland_ls_total.
+Theorem roland_export_total_bytes : forall img, roland_export img <> OutOfFuel.
+Proof. intros img. exact (roland_export_gen_total (zlen img) (dense_rd img)). Qed.
+Print Assumptions roland_export_total_bytes.
+
+(** The reader of the extracted driver (the image travels as runs over zeros and is never
+    expanded) reads the image its runs denote, so every theorem above that speaks about a
+    reader of [img] speaks about what the driver evaluates. *)
+Theorem roland_sparse_reads : forall len runs, runs_okb runs 0 len = true ->
+  zlen (dense_from runs 0 len) = len /\ reads (dense_from runs 0 len) (sparse_image_rd len runs).
+Proof. intros len runs H. apply sparse_reads_lemma. now apply runs_okb_ok. Qed.
+Print Assumptions roland_sparse_reads.
+Theorem roland_dense_reads : forall img, reads img (dense_rd img).
+Proof. exact dense_reads. Qed.
+Print Assumptions roland_dense_reads.
+
+(** Non-vacuity of [roland_export_sample_pcm]: a full-size image (2 868 224 bytes, described as
+    zero runs around three pieces - never expanded) holding sample number 3 "S3": chain
+    4 -> 2 entered at cluster 4, one leading cluster skipped (cluster_top = 1), reverse-loop
+    mode 6, window = words 1..5 of cluster 2, 24 kHz; a full-size FAT that the raw check
+    accepts.  Every hypothesis of the theorem holds; its conclusion gives the parsed sample. *)
+Definition ex_big_fat : list Z :=
+  [FAT_AREA_ID; 0; FAT_V1; 0; 2] ++ zrepeat 0 65529 ++ [FAT_V1; FAT_V1].
+Definition ex_fields : sample_fields :=
+  {| sf_name := [83; 51]; sf_start := 256 * 1 + 9; sf_sus_start := 256 * 2 + 7; sf_sus_end := 256 * 5;
+     sf_rel_start := 0; sf_rel_end := 256 * 9 + 255; sf_mode := 6; sf_b37 := 1; sf_b38 := 0; sf_b39 := 0;
+     sf_top := 1; sf_nclusters := 1; sf_options := 2; sf_key := 60 |}.
+Definition ex_dir_rest : dir_rest :=
+  {| df_attr := 0; df_fwd := 0; df_bwd := 0; df_link := 0; df_reserved := 0; df_nclusters := 2 |}.
+Definition ex_cluster : list Z := map (fun i => i mod 251) (StreamProofs.zrange 0 9216).
+Definition ex_big_image : list Z :=
+  zrepeat 0 841824 ++ ser_dirent [83; 51] 68 ex_dir_rest 4 ++ zrepeat 0 1605648 ++
+  ser_sample_param ex_fields ++ zrepeat 0 393024 ++ ex_cluster ++ zrepeat 0 18432.
+
+Example c02_example_whole_image_sample :
+  let file := roland_file_view CLUSTER_SIZE DATA_FAT_OFFSET (zlen ex_big_image) [2] in
+  fat_table ex_big_fat /\ raw_fat_check ex_big_fat = Ok 1 /\ raw_roland_chain ex_big_fat [4; 2] /\
+  zlen ex_big_image = 2868224 /\
+  parse_sample (zlen ex_big_image) (dense_rd ex_big_image) ex_big_fat 3
+  = Ok (Some {| rs_index := 3; rs_name := [83; 51]; rs_rate := 24000;
+                rs_data := Ok (window_bytes 6 (sample_points ex_fields) (logical file ex_big_image)) |}) /\
+  zlen (window_bytes 6 (sample_points ex_fields) (logical file ex_big_image)) = 10.
+Proof.
+  assert (Hname : name_ok [83; 51]).
+  { split; [unfold zlen; cbn; lia|]. split; [repeat constructor; lia|cbn; lia]. }
+  assert (Hd32 : zlen (ser_dirent [83; 51] 68 ex_dir_rest 4) = 32) by (apply zlen_ser_dirent; apply Hname).
+  assert (Hp48 : zlen (ser_sample_param ex_fields) = 48) by (apply zlen_ser_sample_param; apply Hname).
+  assert (Hcl : zlen ex_cluster = 9216).
+  { unfold ex_cluster. rewrite StreamProofs.map_zlen, StreamProofs.zlen_zrange; lia. }
+  assert (Hlen : zlen ex_big_image = 2868224).
+  { unfold ex_big_image. rewrite !FatProofs.zlen_app, !ContainerProofs.zlen_zrepeat, Hd32, Hp48, Hcl by lia. reflexivity. }
+  assert (Hflen : zlen ex_big_fat = 65536).
+  { unfold ex_big_fat. rewrite !FatProofs.zlen_app, ContainerProofs.zlen_zrepeat by lia. reflexivity. }
+  assert (Hft : fat_table ex_big_fat).
+  { split; [exact Hflen|]. unfold ex_big_fat. apply Forall_app. split; [repeat constructor; unfold FAT_AREA_ID, FAT_V1; lia|].
+    apply Forall_app. split; [|repeat constructor; unfold FAT_V1; lia].
+    apply Forall_forall. intros v Hv. apply repeat_spec in Hv. lia. }
+  assert (Hchk : raw_fat_check ex_big_fat = Ok 1) by (vm_compute; reflexivity).
+  assert (Hc : raw_roland_chain ex_big_fat [4; 2]).
+  { apply raw_roland_chain_unfold. split; [discriminate|]. rewrite Hflen. split; [|split].
+    - repeat constructor; unfold FAT_END; lia.
+    - intros i Hi. change (zlen [4; 2]) with 2 in Hi. assert (i = 0) as -> by lia. reflexivity.
+    - change (FAT_END <= znth 0 ex_big_fat 2). unfold znth. change (Z.to_nat 2) with 2%nat.
+      unfold ex_big_fat. cbn [app nth]. unfold FAT_END, FAT_V1. lia. }
+  cbn zeta. split; [exact Hft|]. split; [exact Hchk|]. split; [exact Hc|]. split; [exact Hlen|].
+  pose proof (roland_export_sample_pcm ex_big_image (dense_rd ex_big_image) ex_big_fat 1 3 [83; 51] 68 ex_dir_rest
+                ex_fields [4; 2] 24000 (dense_reads _) ltac:(lia)) as T.
+  cbn [hd] in T.
+  assert (Z1 : zlen (zrepeat 0 841824) = 841824) by (apply ContainerProofs.zlen_zrepeat; clear; lia).
+  assert (Z2 : zlen (zrepeat 0 1605648) = 1605648) by (apply ContainerProofs.zlen_zrepeat; clear; lia).
+  assert (Hdir : slice ex_big_image (dir_offset KSample 3) (dir_offset KSample 3 + 32)
+                 = ser_dirent [83; 51] 68 ex_dir_rest 4).
+  { unfold ex_big_image.
+    match goal with |- slice (?a ++ ?b) ?x ?y = _ => rewrite (AkaiCompose.slice_skip 841824 a b x y 0 32 Z1 eq_refl eq_refl ltac:(clear; lia)) end.
+    now apply AkaiCompose.slice_here. }
+  assert (Hpar : slice ex_big_image (par_offset KSample 3) (par_offset KSample 3 + 48) = ser_sample_param ex_fields).
+  { unfold ex_big_image.
+    match goal with |- slice (?a ++ ?b) ?x ?y = _ => rewrite (AkaiCompose.slice_skip 841824 a b x y 1605680 1605728 Z1 eq_refl eq_refl ltac:(clear; lia)) end.
+    match goal with |- slice (?a ++ ?b) ?x ?y = _ => rewrite (AkaiCompose.slice_skip 32 a b x y 1605648 1605696 Hd32 eq_refl eq_refl ltac:(clear; lia)) end.
+    match goal with |- slice (?a ++ ?b) ?x ?y = _ => rewrite (AkaiCompose.slice_skip 1605648 a b x y 0 48 Z2 eq_refl eq_refl ltac:(clear; lia)) end.
+    now apply AkaiCompose.slice_here. }
+  specialize (T Hdir Hpar Hname Hname eq_refl Hft Hchk Hc).
+  assert (Hin : Forall (fun k => (k + 1) * CLUSTER_SIZE <= zlen ex_big_image - DATA_FAT_OFFSET) [4; 2]).
+  { rewrite Hlen. repeat constructor; unfold CLUSTER_SIZE, DATA_FAT_OFFSET; lia. }
+  specialize (T ltac:(cbn; unfold zlen; cbn; lia) Hin).
+  cbn zeta in T.
+  assert (Hpts : sample_points ex_fields
+                 = {| p_start := 1; p_sus_start := 2; p_sus_end := 5; p_rel_start := 0; p_rel_end := 9 |}) by reflexivity.
+  change (loop_mode_of_byte (sf_mode ex_fields)) with 6 in T.
+  rewrite Hpts in *.
+  specialize (T ltac:(cbn; lia) ltac:(cbn; lia) ltac:(cbn; unfold CLUSTER_SIZE, zlen; cbn; lia)).
+  destruct T as [T _]. split; [exact T|].
+  rewrite roland_window_length; [reflexivity|cbn; lia|cbn; lia|].
+  unfold roland_file_view, chain_view. rewrite StreamProofs.logical_len; unfold CLUSTER_SIZE, zlen; cbn; lia.
+Qed.
+
+(** the table the whole-image model reads from an image of (non-negative) bytes IS a table of
+    the real format, so the FAT theorems above apply to the model's own table *)
+Theorem roland_fat_words_table : forall img rd fat, reads img rd -> Forall (fun b => 0 <= b) img ->
+  fat_words (zlen img) rd = Some fat -> fat_table fat.
+Proof. exact fat_words_table_lemma. Qed.
+Print Assumptions roland_fat_words_table.
